@@ -246,6 +246,7 @@ PROPS["C20"] = {
     "units": [
         plain("regress", "diskwriter", "TestVerif_C20_Regress_.*"),
         rapid("recording", "diskwriter", "TestVerif_C20_Recording", 1500, 8000),
+        rapid("staggered-sender-reports", "diskwriter", "TestVerif_C20_StaggeredSenderReports", 160, 800, quick_shards=8),
     ],
     "technique": "model-based property testing (rapid): recordings parsed back with an EBML reader and compared with the frames a model publisher sent",
     "assumptions": ["diskwriter is driven through the public conn interfaces with a fake publisher; the packet cache behind it is the real one",
